@@ -463,16 +463,45 @@ def stream_integrate(env, rng, counts):
     rng.shuffle(horder)
     hdim = sum(numel(s) for kind, _, s in horder if kind == "r")
     h = Case(rng, horder, rng.choice(list(range(0, 2 * hdim + 1))))
+    h2 = Case(rng, horder, rng.choice(list(range(0, 2 * hdim + 1))))
     g, hg = c.build(), h.build()
-    hist = [dict(op="gaussian", **c.describe()), dict(op="integrate-gaussian", integrand=h.describe())]
+    ikind = rng.choice(["h", "h", "neg", "diff"])           # integrand: h, -h, h - h2 (distribute / neg rules)
+    mkind = rng.choice(["gaussian", "gaussian", "mixture"])  # measure: g or t + g (eager_integrate_gaussianmixture)
+    route = rng.choice(["Integrate", "Integrate", "exp-mul-reduce"])   # (g.exp() * h).reduce(add, reals)
+    integ = {"h": lambda: hg, "neg": lambda: -hg, "diff": lambda: hg - h2.build()}[ikind]()
+    tb = [(k, n) for k, n in c.batch.items() if rng.random() < 0.7] if mkind == "mixture" else []
+    tdata = dy_array(rng, tuple(n for _, n in tb), pool=[-1, -0.5, 0, 0.5, 1])
+    meas = (Tensor(tdata, OrderedDict((k, Bint[n]) for k, n in tb)) + g) if mkind == "mixture" else g
+    hist = [dict(op="gaussian", **c.describe()),
+            dict(op="integrate-gaussian", integrand=h.describe(), integrand2=h2.describe() if ikind == "diff" else None,
+                 integrand_kind=ikind, measure=mkind, tensor=dict(inputs=tb, data=tdata.tolist()), route=route)]
     rv = frozenset(Variable(k, dom(c.shapes[k])) for k in names)
+
+    def expect_of(hc, p, mean, inv):
+        hw, hP = hc.at(sub_point(p, hc.batch))
+        hl, he, hcst = dense_layout(hc.layout, hw, hP)
+        offs, o = {}, 0
+        for k, n in c.layout:
+            offs[k] = o
+            o += n
+        emb = [offs[k] + e for k, n in hc.layout for e in range(n)]
+        mh = [mean[i] for i in emb]
+        covh = [[inv[i][j] for j in emb] for i in emb]
+        nh = len(emb)
+        e_quad = sum((hl[i][j] * (covh[i][j] + mh[i] * mh[j]) for i in range(nh) for j in range(nh)), F(0))
+        return -e_quad / 2 + sum((mh[i] * he[i] for i in range(nh)), F(0)) + hcst, hw, hP
     try:
         # an integrand with a batch input the measure lacks is declined (AssertionError in align without
         # expand): not a question of input order, so it is outside the completion clause
-        must = set(h.batch) <= set(c.batch)
-        res = expect_value(counts, "integrate-gauss", lambda: Integrate(g, hg, rv), must, hist)
+        must = set(h.batch) <= set(c.batch) and (ikind, mkind, route) == ("h", "gaussian", "Integrate")
+
+        def run():
+            if route == "Integrate":
+                return Integrate(meas, integ, rv)
+            return (meas.exp() * integ).reduce(ops.add, rv)
+        res = expect_value(counts, "integrate-gauss", run, must, hist)
         if not isinstance(res, (Tensor, Number)):
-            counts("integrate-gauss:lazy")
+            counts(f"integrate-gauss:lazy:{ikind}:{mkind}:{route}")
             return None
         allb = OrderedDict(c.batch)
         allb.update(h.batch)
@@ -481,41 +510,34 @@ def stream_integrate(env, rng, counts):
         for idx in itertools.product(*[range(s) for s in allb.values()]):
             p = dict(zip(allb, idx))
             w, P = c.at(sub_point(p, c.batch))
-            hw, hP = h.at(sub_point(p, h.batch))
             lam, eta, cc = dense_layout(c.layout, w, P)
             inv = mat_inv(lam)
             dim = c.dim
             mean = [sum((inv[i][j] * eta[j] for j in range(dim)), F(0)) for i in range(dim)]
             c2 = cc + sum((eta[i] * inv[i][j] * eta[j] for i in range(dim) for j in range(dim)), F(0)) / 2
             norm = math.exp(float(c2) + logconst(dim, mat_det(lam)))
+            if mkind == "mixture":
+                norm *= math.exp(float(tdata[tuple(p[k] for k, _ in tb)]))
             # E[h(x)], x ~ N(mean, inv): h(x) = -1/2 x'Hx + x'e + ch  (h embedded into g's layout)
-            hl, he, hc = dense_layout(h.layout, hw, hP)
-            emb = positions(c.layout, [k for k, _ in h.layout])
-            # positions of h's layout order inside g's flat vector
-            offs, o = {}, 0
-            for k, n in c.layout:
-                offs[k] = o
-                o += n
-            emb = [offs[k] + e for k, n in h.layout for e in range(n)]
-            mh = [mean[i] for i in emb]
-            covh = [[inv[i][j] for j in emb] for i in emb]
-            nh = len(emb)
-            e_quad = sum((hl[i][j] * (covh[i][j] + mh[i] * mh[j]) for i in range(nh) for j in range(nh)), F(0))
-            expect = -e_quad / 2 + sum((mh[i] * he[i] for i in range(nh)), F(0)) + hc
-            want = float(expect) * norm
+            expect, hw, hP = expect_of(h, p, mean, inv)
+            total = {"h": expect, "neg": -expect}.get(ikind)
+            if ikind == "diff":
+                total = expect - expect_of(h2, p, mean, inv)[0]
+            want = float(total) * norm
             got = float(tab[idx])
-            if not fclose(got, want, 1.0, 1e-8):
+            if not fclose(got, want, max(1.0, abs(want)), 1e-8):
                 raise CaseFail("C13.integrate-gaussian-ne-expectation", point=p, expected=str(want), got=str(got))
-            # model request: h aligned to g's layout (zero rows for inputs h lacks)
-            hrow = {}
-            o = 0
-            for k, n in h.layout:
-                for e in range(n):
-                    hrow[(k, e)] = hP[o + e]
-                o += n
-            hal = [hrow.get((k, e), [F(0)] * len(hw)) for k, n in c.layout for e in range(n)]
-            reqs.append((f"C13 integrate {sx(g_sexp(c.layout, w, P))} {sx(g_sexp(c.layout, hw, hal))}", expect))
-        if env.use_driver:
+            if (ikind, mkind) == ("h", "gaussian"):
+                # model request: h aligned to g's layout (zero rows for inputs h lacks)
+                hrow = {}
+                o = 0
+                for k, n in h.layout:
+                    for e in range(n):
+                        hrow[(k, e)] = hP[o + e]
+                    o += n
+                hal = [hrow.get((k, e), [F(0)] * len(hw)) for k, n in c.layout for e in range(n)]
+                reqs.append((f"C13 integrate {sx(g_sexp(c.layout, w, P))} {sx(g_sexp(c.layout, hw, hal))}", expect))
+        if env.use_driver and reqs:
             for ans, (rq, expect) in zip(env.driver.ask([r[0] for r in reqs]), reqs):
                 if not ans.startswith("ok ") or ans.startswith("ok (") or F(ans[3:]) != expect:
                     raise CaseFail("model-ne-spec", expected=str(expect), got=ans, request=rq[:1500])
@@ -523,6 +545,7 @@ def stream_integrate(env, rng, counts):
     except CaseFail as cf:
         cf.kw.setdefault("witness_history", hist)
         raise
+    counts(f"integrate:{ikind}:{mkind}:{route}")
     counts("integrate:gaussian")
     return ("integrate-gauss", str(c.order), str(horder), c.rank, h.rank)
 
@@ -880,6 +903,160 @@ def stream_shared(env, rng, counts):
     return ("shared", mode, str(c0.order), c0.rank, str(sequence))
 
 
+def _embed(layout_u, layout, lam, eta):
+    """embed a dense (lam, eta) over `layout` into the union layout by names"""
+    offs, o = {}, 0
+    for k, n in layout_u:
+        offs[k] = o
+        o += n
+    tot = o
+    pos = [offs[k] + e for k, n in layout for e in range(n)]
+    L = [[F(0)] * tot for _ in range(tot)]
+    E = [F(0)] * tot
+    for a, ia in enumerate(pos):
+        E[ia] += eta[a]
+        for b, ib in enumerate(pos):
+            L[ia][ib] += lam[a][b]
+    return L, E
+
+
+def stream_contraction(env, rng, counts):
+    """The eager rule Contraction(logaddexp, add, vars, GaussianMixture, GaussianMixture) (cnf.py "mixture
+    contraction") called DIRECTLY — Contraction(...) and funsor.einsum.naive_contract_einsum — with
+    m1 = t1 + g1, m2 = t2 + g2 over shared / distinct integer inputs and shared / disjoint real inputs, for
+    subsets `vars` of all inputs; against the dense closed form of the pointwise sum, and against
+    (m1 + m2).reduce where that completes."""
+    from funsor.cnf import Contraction
+    from funsor.einsum import naive_contract_einsum
+    share_int = rng.random() < 0.7
+    share_real = rng.random() < 0.4
+    ni = rng.choice([2, 2, 3])
+    b1 = [("b", "i", ni)] + ([("b", "k", 2)] if rng.random() < 0.3 else [])
+    b2 = [("b", "i" if share_int else "j", ni if share_int else rng.choice([2, 3]))]
+    sh = lambda: rng.choice([(), (), (2,)])
+    r1 = [("r", "x", sh())]
+    r2 = [("r", "y", sh())] + ([("r", "x", r1[0][2])] if share_real else [])
+    o1, o2 = r1 + b1, r2 + b2
+    rng.shuffle(o1)
+    rng.shuffle(o2)
+    cs = []
+    for o in (o1, o2):
+        dim = sum(numel(s_) for kind, _, s_ in o if kind == "r")
+        c = None
+        for _ in range(40):
+            cand = Case(rng, o, rng.choice([dim, dim + 1]))
+            if cand.block_ok([k for k, _ in cand.layout]):
+                c = cand
+                break
+        if c is None:
+            return None
+        cs.append(c)
+    c1, c2 = cs
+    ts, ms = [], []
+    for c in cs:
+        tb = [(k, n) for k, n in c.batch.items() if rng.random() < 0.8]
+        tdata = dy_array(rng, tuple(n for _, n in tb), pool=[-1, -0.5, 0, 0.5, 1])
+        ts.append((tb, tdata))
+        ms.append(Tensor(tdata, OrderedDict((k, Bint[n]) for k, n in tb)) + c.build())
+    m1, m2 = ms
+    batch = OrderedDict(c1.batch)
+    batch.update(c2.batch)
+    layout_u = list(c1.layout) + [p_ for p_ in c2.layout if p_[0] not in dict(c1.layout)]
+    rnames = [k for k, _ in layout_u]
+    # full joint block must be positive definite at every point to integrate everything
+    red_r = [k for k in rnames if rng.random() < 0.6]
+    all_reals = set(red_r) == set(rnames)
+    red_i = [k for k in batch if rng.random() < 0.6] if all_reals else []
+    if not red_r and not red_i:
+        red_r = [rnames[0]]
+        all_reals = set(red_r) == set(rnames)
+    shapes = dict(c1.shapes)
+    shapes.update(c2.shapes)
+    rv = frozenset([Variable(k, dom(shapes[k])) for k in red_r] + [Variable(k, Bint[batch[k]]) for k in red_i])
+    hist = [dict(op="gaussian", **c1.describe()), dict(op="gaussian", **c2.describe()),
+            dict(op="mixture-contraction", tensors=[dict(inputs=tb, data=td.tolist()) for tb, td in ts],
+                 reduced=red_r + red_i)]
+    how = rng.choice(["Contraction", "Contraction", "einsum"])
+    names_all = list(batch) + rnames
+    try:
+        def run():
+            if how == "einsum" and all(len(k) == 1 for k in names_all):
+                kept = "".join(k for k in names_all if k not in red_r + red_i)
+                eqn = "".join(m1.inputs) + "," + "".join(m2.inputs) + "->" + kept
+                return naive_contract_einsum(eqn, m1, m2, backend="pyro.ops.einsum.torch_log")
+            return Contraction(ops.logaddexp, ops.add, rv, m1, m2)
+        res = expect_value(counts, "mixture-contraction", run, False, hist)
+        # expected, per batch point
+        kept_b = [k for k in batch if k not in red_i]
+        kept_r = [(k, n) for k, n in layout_u if k not in red_r]
+        acc = {}
+        for idx in itertools.product(*[range(n) for n in batch.values()]):
+            p = dict(zip(batch, idx))
+            tot_c = F(0)
+            Lu = Eu = None
+            for c, (tb, td) in zip(cs, ts):
+                w, P = c.at(sub_point(p, c.batch))
+                lam, eta, cc = dense_layout(c.layout, w, P)
+                L, E = _embed(layout_u, c.layout, lam, eta)
+                Lu = L if Lu is None else [[a + b for a, b in zip(ra, rb)] for ra, rb in zip(Lu, L)]
+                Eu = E if Eu is None else [a + b for a, b in zip(Eu, E)]
+                tot_c += cc + F(float(td[tuple(p[k] for k, _ in tb)]))
+            if red_r:
+                sch = schur(layout_u, Lu, Eu, tot_c, red_r)
+                if sch is None:
+                    raise Declined("joint-block-singular")
+                lay_a, lam2, eta2, c2_, nb, det = sch
+                cval = float(c2_) + logconst(nb, det)
+            else:
+                lay_a, lam2, eta2, cval = layout_u, Lu, Eu, float(tot_c)
+            acc.setdefault(tuple(p[k] for k in kept_b), []).append((p, lay_a, lam2, eta2, cval))
+        if kept_r:
+            obs = Obs(res)
+            for key, items in acc.items():
+                p, lay_a, lam2, eta2, cval = items[0]
+                names_c, lam_c, eta_c = canon(lay_a, lam2, eta2)
+                iw, iP, it = obs.at(p)
+                d_impl = dense_from_sqrt(obs.layout, iw, iP, it)
+                if not dense_close(d_impl, names_c, lam_c, eta_c, cval, 1e-8):
+                    raise CaseFail("C13.mixture-contraction-ne-dense", point=p, got=dense_str(d_impl),
+                                   expected=str(dict(layout=names_c, precision=[[str(v) for v in r] for r in lam_c],
+                                                     info_vec=[str(v) for v in eta_c], const=cval)))
+        else:
+            if not isinstance(res, (Tensor, Number)):
+                counts("mixture-contraction:lazy")
+                return None
+            tab = c12.table_of(res, kept_b, batch)
+            for key, items in acc.items():
+                vs = [it_[4] for it_ in items]
+                m = max(vs)
+                want = m + math.log(sum(math.exp(v - m) for v in vs))
+                if not fclose(float(tab[key]), want, 1.0, 1e-8):
+                    raise CaseFail("C13.mixture-contraction-ne-logsumexp", point=key, expected=str(want),
+                                   got=str(float(tab[key])))
+        # against the ordinary route
+        try:
+            ref = (m1 + m2).reduce(ops.logaddexp, rv)
+            if c12.decompose(ref) is not None and c12.decompose(res) is not None:
+                o1_, o2_ = Obs(res), Obs(ref)
+                for key, items in acc.items():
+                    p = items[0][0]
+                    a = dense_from_sqrt(o1_.layout, *o1_.at(p))
+                    b = dense_from_sqrt(o2_.layout, *o2_.at(p))
+                    if not dense_equal(a, b, 1e-8):
+                        raise CaseFail("C13.mixture-contraction-ne-add-then-reduce", point=p, got=dense_str(a),
+                                       expected=dense_str(b))
+                counts("mixture-contraction:agrees-with-reduce")
+        except DECLINE_ERRORS + (np.linalg.LinAlgError,):
+            counts("mixture-contraction:reduce-declined")
+    except CaseFail as cf:
+        cf.kw.setdefault("witness_history", hist)
+        raise
+    counts("mixture-contraction:" + how)
+    counts("mixture-contraction:" + ("shared-int" if share_int else "distinct-int") + ("+shared-real" if share_real else ""))
+    counts("mixture-contraction:reduces-" + ("ints+reals" if red_i else "reals"))
+    return ("contraction", str(o1), str(o2), tuple(red_r + red_i), how)
+
+
 def _snapshot(f):
     """bitwise image of a result (for the history-independence gate)"""
     obs = Obs(f)
@@ -996,7 +1173,7 @@ def stream_history(env, rng, counts):
 
 STREAMS = [("marginal", stream_marginal, 8), ("too-little", stream_too_little, 1), ("integrate", stream_integrate, 3),
            ("mixture", stream_mixture, 2), ("plate", stream_plate, 2), ("moment", stream_moment, 2),
-           ("shared", stream_shared, 2)]
+           ("shared", stream_shared, 2), ("contraction", stream_contraction, 2)]
 
 
 def run_case(env, case_seed, counts, stream=None):
@@ -1101,6 +1278,14 @@ def inverse_stream(ctx, n):
 
 
 def correspond(ctx, use_driver=True, volume=None):
+    with c12.RuleMonitor() as mon:
+        try:
+            _correspond(ctx, use_driver, volume)
+        finally:
+            ctx.extra["gaussian_rules"] = mon.report()
+
+
+def _correspond(ctx, use_driver=True, volume=None):
     ctx.rule = ("Gaussians of C12's family (1-3 real inputs of shapes ()..(2,2), 0-2 batch inputs, interleaved input "
                 "orders, dyadic parameters) with rank in {dim_b, dim_b+1, dim, dim+1} and nonsingular integrated "
                 "block; streams: marginal over every kind of subset of the reals (contiguous / interleaved blocks, "
